@@ -490,7 +490,14 @@ NDIM_FNS = ("echs_scale_ndim", "__get_ndom", "__ndim_greg", "__ndim_hij", "__ndi
 
 
 def _in_range(e, r):
-    return bool(r) and (r[0], r[1]) <= (e.get("line") or 0, e.get("col") or 0) <= (r[2], r[3])
+    """e lies in the source range r — by its own position, or (an element of a helper that was spliced in) by the position of the
+    call it replaces."""
+    if not r:
+        return False
+    at = e.get("at")
+    if at and at[0] is not None:
+        return (r[0], r[1]) <= (at[0] or 0, at[1] or 0) <= (r[2], r[3])
+    return (r[0], r[1]) <= (e.get("line") or 0, e.get("col") or 0) <= (r[2], r[3])
 
 
 def main_loop_stmt(f, h):
@@ -633,6 +640,36 @@ def r01_8(prog, rep, rid="R01.8"):
                     dups.append((lv(l), int_value(r["r"]), b, i, nn.get("line", line)))
                 if nn["op"] == "&=" and int_value(r) is not None:
                     clamps.append((lv(l), int_value(r), b, i, nn.get("line", line)))
+        # the same idiom written as one expression: ((v | (v << N)) >> start) & C
+        for b, i, x, line in cfg.all_elems():
+            if not isinstance(x, dict):
+                continue
+            for l, kind, nn in writes(x):
+                rhs = nn.get("init") if kind == "decl" else (nn.get("r") if nn.get("k") == "bin" else None)
+                if rhs is None or strip_casts(l).get("k") != "ref":
+                    continue
+                for q in walk(cfg.resolve(rhs)):
+                    if not (q.get("k") == "bin" and q["op"] == "&"):
+                        continue
+                    for cside, oside in (("r", "l"), ("l", "r")):
+                        C = int_value(q[cside])
+                        if C is None:
+                            continue
+                        for o in walk(q[oside]):
+                            if o.get("k") == "bin" and o["op"] == "|":
+                                for a_, b_ in ((o["l"], o["r"]), (o["r"], o["l"])):
+                                    b2_ = strip_casts(b_)
+                                    if b2_.get("k") == "bin" and b2_["op"] == "<<" and int_value(b2_["r"]) is not None and \
+                                            show(strip_casts(b2_["l"])) == show(strip_casts(a_)):
+                                        N = int_value(b2_["r"])
+                                        n += 1
+                                        key = "%s/wrap-clamp(%s)" % (f.name, lv(l))
+                                        if C == (1 << N) - 1:
+                                            rep.ok(rid, key, f.loc(nn.get("line", line)), "%s is duplicated by %d positions and clamped to %d positions" % (lv(l), N, N))
+                                        else:
+                                            rep.fail(rid, key, f.loc(nn.get("line", line)), "%s is duplicated by %d positions for wrap-around but clamped with %#x, which keeps %d "
+                                                     "positions: the position %d after the start is dropped from the cyclic set (for the weekly filler a BYDAY "
+                                                     "naming the weekday before DTSTART's is ignored)" % (lv(l), N, C, bin(C).count("1"), N - 1))
         for v, N, b, i, line in dups:
             for v2, C, b2, i2, line2 in clamps:
                 if v2 != v or not ((b2 == b and i2 > i) or (b2 != b and b2 in cfg.reach_from(b))):
